@@ -16,6 +16,7 @@ fn producers() -> Vec<Src> {
     Src::Interval(2),
     Src::IntervalAt(1, 1),
     Src::IterCount(N_ITEMS),
+    Src::CreatePolling(N_ITEMS),
     Src::StreamCount(N_ITEMS),
     Src::StreamResultCount(N_ITEMS),
     Src::Timer(1, 2),
@@ -333,7 +334,7 @@ pub fn plan(tier: Tier) -> Plan {
       prop: "C16".into(),
       tier: tier_name(tier),
       engine: "E1 opseq".into(),
-      rule: "producer in {interval(1|2), interval_at, from_iter over a pull-counting iterator, from_stream / from_stream_result over a poll-counting stream, timer, the tickers of buffer_with_time / buffer_with_count_and_time / sample(interval)} x every sequence up to the depth bound of intermediate catalogue stages x cutter in {take(1), first, element_at(0|1), take_while(_inclusive), contains, all, first_or, take_until(timer)}, and the producer as first and as second / notifier input of every two-input operator whose output is cut (hot other input, every emit/silent pattern per tick); local and _threads forms; prompt FIFO executor on the virtual clock. After the probe's terminal: no further pull of an iterator / stream, at most one more emission of a ticker, and within one period + 2 ticks no ready task and no live timer is left; non-trivial = something was delivered".into(),
+      rule: "producer in {interval(1|2), interval_at, from_iter over a pull-counting iterator, create() with a producer that polls is_finished(), from_stream / from_stream_result over a poll-counting stream, timer, the tickers of buffer_with_time / buffer_with_count_and_time / sample(interval)} x every sequence up to the depth bound of intermediate catalogue stages x cutter in {take(1), first, element_at(0|1), take_while(_inclusive), contains, all, first_or, take_until(timer)}, and the producer as first and as second / notifier input of every two-input operator whose output is cut (hot other input, every emit/silent pattern per tick); local and _threads forms; prompt FIFO executor on the virtual clock. After the probe's terminal: no further pull of an iterator / stream, at most one more emission of a ticker, and within one period + 2 ticks no ready task and no live timer is left; non-trivial = something was delivered".into(),
       bounds: json!({"stage_depth": depth, "stage_depth_core_stages": if tier == Tier::Thorough { 3 } else { depth }, "core_stages": core_stages().len(), "pipelines": n_pipes, "iterator_items": N_ITEMS}),
       assumptions: vec![
         "pipelines whose cutter never fires within the horizon are counted as skipped_unspecified".into(),
